@@ -67,6 +67,10 @@ func (r *refKV) apply(args []string, now int64) string {
 			s, _ := strconv.Atoi(args[4])
 			r.m[k].expAt = now + int64(s)*sec
 		}
+		if len(args) == 5 && strings.ToUpper(args[3]) == "PX" {
+			s, _ := strconv.Atoi(args[4])
+			r.m[k].expAt = now + int64(s)*ms
+		}
 		return "+OK"
 	case "GET":
 		switch {
@@ -198,7 +202,7 @@ func c15TextAlphabet() []wStep {
 	}
 	a = append(a, wStep{Text: []string{"SET", "a", "10"}}, wStep{Text: []string{"APPEND", "n", "x"}}, wStep{Text: []string{"INCR", "n"}}, wStep{Text: []string{"DECR", "n"}}, wStep{Text: []string{"INCRBY", "n", "5"}}, wStep{Text: []string{"DECRBY", "n", "7"}}, wStep{Text: []string{"INCRBY", "n", "0"}}, wStep{Text: []string{"EXISTS", "n"}},
 		wStep{Text: []string{"GET", "n"}}, wStep{Text: []string{"DEL", "n"}}, wStep{Text: []string{"INCR", "a"}},
-		wStep{Text: []string{"EXPIRE", "a", "2"}}, wStep{Text: []string{"PERSIST", "a"}}, wStep{Text: []string{"SET", "b", "v", "EX", "2"}},
+		wStep{Text: []string{"EXPIRE", "a", "2"}}, wStep{Text: []string{"PERSIST", "a"}}, wStep{Text: []string{"SET", "b", "v", "EX", "2"}}, wStep{Text: []string{"SET", "b", "v", "PX", "3500"}},
 		wStep{Tick: 1 * sec}, wStep{Tick: 5 * sec})
 	return a
 }
